@@ -5,6 +5,7 @@ import (
 	"crypto/hmac"
 	"crypto/sha256"
 	"fmt"
+	"slices"
 	"sort"
 	"strings"
 	"sync"
@@ -464,7 +465,20 @@ func (r *ksRun) tamper(a Args) string {
 	r.didTamper = true
 	r.label = label
 
-	return ksErrLine(r.ks.UnmarshalBinary(bin))
+	return ksErrLine(ksUnmarshalScrub(r.ks, bin))
+}
+
+// ksUnmarshalScrub unmarshals from a private copy of the bytes and scrubs that copy afterwards: the key storage must
+// own its data (a caller may reuse or wipe the buffer it read the serialized form into).
+func ksUnmarshalScrub(ks *keystorage.KeyStorage, bin []byte) error {
+	buf := slices.Clone(bin)
+	err := ks.UnmarshalBinary(buf)
+
+	for i := range buf {
+		buf[i] = 0xAA
+	}
+
+	return err
 }
 
 func (r *ksRun) withLabel(s string) string {
@@ -508,7 +522,7 @@ func (r *ksRun) exec(line string) (out string) {
 
 		r.ks = &keystorage.KeyStorage{}
 
-		return r.withLabel(ksErrLine(r.ks.UnmarshalBinary(bin)))
+		return r.withLabel(ksErrLine(ksUnmarshalScrub(r.ks, bin)))
 	case "save":
 		bin, err := r.ks.MarshalBinary()
 		if err != nil {
@@ -523,7 +537,7 @@ func (r *ksRun) exec(line string) (out string) {
 			r.ks = &keystorage.KeyStorage{}
 		}
 
-		return ksErrLine(r.ks.UnmarshalBinary(r.saved))
+		return ksErrLine(ksUnmarshalScrub(r.ks, r.saved))
 	case "dump":
 		return r.dump()
 	case "tamper":
